@@ -93,7 +93,9 @@ func c07Setup(n int) (*Service, []*c07Provider, time.Duration) {
 		switch p.outcome {
 		case oValid:
 			// head 0 or 1 slots behind, source epoch 8 or 9: four distinct scores
-			cache.slots[root] = c07Slot - phase0.Slot(vnd.Choose("head.back", 2))
+			if !c07Narrow {
+				cache.slots[root] = c07Slot - phase0.Slot(vnd.Choose("head.back", 2))
+			}
 			p.data.Source.Epoch = phase0.Epoch(8 + vnd.Choose("source", 2))
 		case oNilTarget:
 			p.data.Target = nil
@@ -111,7 +113,15 @@ func c07Setup(n int) (*Service, []*c07Provider, time.Duration) {
 // exactly when no valid response arrived in time.
 func VerifC07_Best() { c07Best(vnd.IntRange("n", 1, 2)) }
 
-func VerifC07_Best3() { c07Best(3) }
+// VerifC07_Best3: three nodes (thorough); a valid answer has one of two scores (source epoch
+// 8 or 9, head never behind) instead of four.
+func VerifC07_Best3() {
+	c07Narrow = true
+	c07Best(3)
+}
+
+// c07Narrow: fewer score levels per valid answer.
+var c07Narrow bool
 
 func c07Best(n int) {
 	s, provs, timeout := c07Setup(n)
